@@ -173,7 +173,7 @@ CLAIMED = {
         'as data; the host transport may fail on write as well as on read; Chipset.command\'s own contract (C14) is an '
         'obligation of this check too.',
    design_ref='DESIGN.md Part A sections A.4 (this property), A.8',
-   note='Assumed: a well-framed response carries the payload length its command defines; pn532 TT1 bit-reversal path '
+   note='Assumed: one octet per register in a ReadRegister response (the payload of any other well-framed response may have any length, zero included - since fix f6bf079); pn532 TT1 bit-reversal path '
         'and the CRC check are assumed total. Not covered: pn531/pn533/rcs956/acr122/arygon specific overrides, udp, '
         'listen-mode TT3 path, the status-to-class mapping of the pn53x family beyond class membership.',
    technique='contract-based deductive verification: raises-clauses, modular over the C14 command contract (pyvc)'),
@@ -459,8 +459,8 @@ EXTRA_NOTE = {
         'step below it), termination of the Target recovery loop, clock progress of the deadline loop (assumed). A '
         'conforming peer is assumed to put no information field into an ACK. With C19 (miu + header <= LR) the call-site '
         'precondition gives "no frame exceeds the announced payload size".',
- 'C13': 'Assumed: the payload length a chip returns in a well-framed response with the matching response code (status '
-        'words, one octet per register); the PN532/PN533 register-level Type 1 Tag emulation (string based bit reversal) '
+ 'C13': 'Assumed: one octet per register in a ReadRegister response (any other response payload has any length, zero '
+        'included); the PN532/PN533 register-level Type 1 Tag emulation (string based bit reversal) '
         'and the CRC check are assumed total. Not covered: arygon (thin subclass), the sense/listen paths, the '
         'listen-mode TT3 path. Log arguments are not evaluated in this property (path budget).',
 }
